@@ -114,6 +114,9 @@ class MasterScheduler(BaseScheduler):
             return
         new.cancel()
 
+        # A wakeup may have been added while the sleep was expiring: serve what is
+        # first now (it is due, as it is not later than what was slept for).
+        components, when = self.get_first_wakeups()
         for component in components:
             del self.wakeups[component]
             self._pending_interrupts.pop(component, None)
